@@ -299,7 +299,7 @@ theorem msgInv_step {s s' : Sys} {t : Nat} (hl : LockInv s) (hid : IdInv s) (his
       have := hu h1' h2'
       contradiction
   all_goals (grind [upd_apply, Pc.holds, recvChan_sent, recvChan_closed, recvChan_stream, closeChan,
-    List.prefix_append, List.pairwise_append, Delivers, mkMsg])
+    List.prefix_append, Delivers, mkMsg])
 
 /-! ## Ids that are gone for good -/
 
@@ -435,7 +435,7 @@ theorem others_cannot_delay {s s' : Sys} {t t' : Nat} (hl : LockInv s) (h : s.lo
       exact absurd (Option.some.inj this).symm hne
   have hne' : t ≠ t' := fun e => hne e.symm
   step_cases hst
-  all_goals (simp_all [Pc.holds, Sys.setPc, Sys.finish, Sys.setHub, Sys.setLock, upd_apply])
+  all_goals (simp_all [Pc.holds, Sys.setPc, Sys.finish, Sys.setHub, upd_apply])
 
 theorem csRemaining_congr {s s' : Sys} {t : Nat} (h1 : s'.tasks t = s.tasks t)
     (h2 : s'.hub.entries = s.hub.entries) : csRemaining s' t = csRemaining s t := by
@@ -486,5 +486,587 @@ theorem cs_bounded : ∀ (sched : List Nat) {s : Sys} {t : Nat}, LockInv s → s
         refine ⟨x :: pre, suf, rfl, ?_, ?_⟩
         · rw [exec_cons]; simpa [stepOrStay, hst] using hp1
         · rw [List.count_cons_of_ne hx]; omega
+
+/-! ## Strictly increasing log positions = subsequence of the log -/
+
+theorem sublist_of_increasing {α : Type} (f : Msg → α) :
+    ∀ (log : List α) (off : Nat) (l : List Msg),
+      (∀ m ∈ l, off ≤ m.seq ∧ log[m.seq - off]? = some (f m)) →
+      l.Pairwise (fun a b => a.seq < b.seq) → (l.map f).Sublist log := by
+  intro log
+  induction log with
+  | nil =>
+    intro off l h _
+    cases l with
+    | nil => simp
+    | cons m ms => have := (h m (by simp)).2; simp at this
+  | cons x xs ih =>
+    intro off l h hp
+    cases l with
+    | nil => simp
+    | cons m ms =>
+      have hm := h m (by simp)
+      rw [List.pairwise_cons] at hp
+      by_cases heq : m.seq = off
+      · have hx : f m = x := by
+          have := hm.2; rw [heq] at this; simp at this; exact this.symm
+        rw [List.map_cons, hx]
+        apply List.Sublist.cons_cons
+        apply ih (off + 1) ms _ hp.2
+        intro m' hm'
+        have h1 := hp.1 m' hm'
+        have h2 := h m' (by simp [hm'])
+        refine ⟨by omega, ?_⟩
+        have : m'.seq - off = (m'.seq - (off + 1)) + 1 := by omega
+        rw [this, List.getElem?_cons_succ] at h2
+        exact h2.2
+      · apply List.Sublist.cons
+        apply ih (off + 1) (m :: ms) _ (List.pairwise_cons.mpr hp)
+        intro m' hm'
+        have h2 := h m' hm'
+        have hge : off + 1 ≤ m'.seq := by
+          rcases List.mem_cons.mp hm' with rfl | hin
+          · omega
+          · have := hp.1 m' hin; omega
+        refine ⟨hge, ?_⟩
+        have : m'.seq - off = (m'.seq - (off + 1)) + 1 := by omega
+        rw [this, List.getElem?_cons_succ] at h2
+        exact h2.2
+
+theorem got_sublist_sent {s : Sys} (hm : MsgInv s) (c : Nat) :
+    (s.hub.chans c).got.Sublist (s.hub.chans c).sent := by
+  obtain ⟨_, _, _, h4, h5, _⟩ := hm
+  cases hc : (s.hub.chans c).closed
+  · rw [← h4 c hc]; exact List.sublist_append_left _ _
+  · exact (h5 c hc).2.sublist
+
+theorem queue_subset_sent {s : Sys} (hm : MsgInv s) (c : Nat) :
+    ∀ m ∈ (s.hub.chans c).queue, m ∈ (s.hub.chans c).sent := by
+  obtain ⟨_, _, _, h4, h5, _⟩ := hm
+  intro m hq
+  cases hc : (s.hub.chans c).closed
+  · rw [← h4 c hc]; exact List.mem_append_right _ hq
+  · rw [(h5 c hc).1] at hq; simp at hq
+
+/-! ## Frame and inversion facts about one step -/
+
+theorem step_other {s s' : Sys} {t t1 : Nat} (h : step s t = some s') (hne : t1 ≠ t) :
+    s'.tasks t1 = s.tasks t1 := by
+  step_cases h
+  all_goals (simp [Sys.setPc, Sys.finish, Sys.setHub, Sys.setLock, upd_apply, hne])
+
+theorem step_log {s s' : Sys} {t : Nat} (h : step s t = some s') : s.log.length ≤ s'.log.length := by
+  step_cases h
+  all_goals (simp [Sys.setPc, Sys.finish, Sys.setHub, Sys.setLock])
+
+/-- A message that is new in some channel history was built by the loop body for a table entry. -/
+theorem step_sent {s s' : Sys} {t : Nat} (h : step s t = some s') (c : Nat) (m : Msg)
+    (hm : m ∈ (s'.hub.chans c).sent) :
+    m ∈ (s.hub.chans c).sent ∨ ∃ e ∈ s.hub.entries, m.sub = e.id := by
+  step_cases h
+  all_goals (simp only [Sys.setPc, Sys.finish, Sys.setHub, Sys.setLock, sendTo_chans] at hm)
+  all_goals (try (exact Or.inl hm))
+  all_goals (try (simp only [upd_apply] at hm; split at hm <;> simp_all [closeChan]; done))
+  · rename_i e he
+    split at hm
+    · simp only [upd_apply] at hm
+      split at hm
+      · simp only [List.mem_append, List.mem_singleton] at hm
+        rcases hm with hm | rfl
+        · rename_i hc; exact Or.inl (hc ▸ hm)
+        · exact Or.inr ⟨e, List.mem_of_getElem? he, rfl⟩
+      · exact Or.inl hm
+    · exact Or.inl hm
+
+theorem step_unsubAt {s s' : Sys} {t : Nat} (h : step s t = some s') (k n : Nat)
+    (hm : (k, n) ∈ s'.unsubAt) :
+    (k, n) ∈ s.unsubAt ∨ ((s.tasks t).pc = .unsubDone k true ∧ n = s.log.length) := by
+  step_cases h
+  all_goals (simp only [Sys.setPc, Sys.finish, Sys.setHub, Sys.setLock] at hm)
+  all_goals (try (exact Or.inl hm))
+  rename_i x id r hpc hr
+  subst hr
+  simp only [List.mem_append, List.mem_singleton, Prod.mk.injEq] at hm
+  rcases hm with hm | ⟨rfl, rfl⟩
+  · exact Or.inl hm
+  · exact Or.inr ⟨hpc, rfl⟩
+
+/-! ## Nothing after unsubscribe -/
+
+/-- An `unsubscribe(k)` that found `k` leaves it dead; every `unsubAt` record `(k, n)` names a dead id
+whose channel histories contain no message of publish number `≥ n`. -/
+def UnsubInv (s : Sys) : Prop :=
+  (∀ t k, (s.tasks t).pc = .unsubDone k true → Dead s k) ∧
+  (∀ k n, (k, n) ∈ s.unsubAt → Dead s k ∧ n ≤ s.log.length ∧
+    ∀ c m, m ∈ (s.hub.chans c).sent → m.sub = k → m.seq < n)
+
+theorem unsubInv_init (caps progs) : UnsubInv (init caps progs) := by
+  simp [UnsubInv, init, emptyHub]
+
+set_option maxHeartbeats 1000000 in
+theorem unsubInv_step {s s' : Sys} {t : Nat} (hid : IdInv s) (hm : MsgInv s) (hi : UnsubInv s)
+    (h : step s t = some s') : UnsubInv s' := by
+  obtain ⟨h1, h2⟩ := hi
+  have hlk : ∀ c m, m ∈ (s.hub.chans c).sent → m.seq < s.log.length := fun c m hm' =>
+    getElem?_lt (hm.2.1 c m hm').2
+  constructor
+  · intro t1 k hpc
+    by_cases ht : t1 = t
+    · subst ht
+      obtain ⟨hnd, hlt, hpend, _⟩ := hid
+      have hrem := @removeId_length_ne s.hub.entries
+      step_cases h
+      all_goals (simp only [Sys.setPc, Sys.finish, Sys.setHub, Sys.setLock, upd_same] at hpc)
+      all_goals (try (simp at hpc; done))
+      simp only [Pc.unsubDone.injEq, bne_iff_ne, ne_eq] at hpc
+      obtain ⟨hk, hr⟩ := hpc
+      subst hk
+      have hr' := hr
+      obtain ⟨e, he, hek⟩ := hrem hr'
+      refine ⟨⟨?_, ?_⟩, ?_⟩
+      · simp only [Sys.setPc, Sys.setHub]; rw [← hek]; exact hlt e he
+      · intro t2
+        simp only [Sys.setPc, Sys.setHub, upd_apply]
+        split
+        · simp [Pc.pendingId]
+        · intro hp; exact (hpend t2 _ hp).2 e he hek
+      · intro e' he'
+        simp only [Sys.setPc, Sys.setHub] at he'
+        exact (mem_removeId.mp he').2
+    · rw [step_other h ht] at hpc
+      exact dead_step (h1 t1 k hpc) h
+  · intro k n hkn
+    have hll := step_log h
+    rcases step_unsubAt h k n hkn with hold | ⟨hpc, rfl⟩
+    · obtain ⟨hd, hn, hmsg⟩ := h2 k n hold
+      refine ⟨dead_step hd h, by omega, ?_⟩
+      intro c m hmem hsub
+      rcases step_sent h c m hmem with ho | ⟨e, he, hme⟩
+      · exact hmsg c m ho hsub
+      · exact absurd (hme.symm.trans hsub) (hd.2 e he)
+    · have hd := h1 t k hpc
+      refine ⟨dead_step hd h, hll, ?_⟩
+      intro c m hmem hsub
+      rcases step_sent h c m hmem with ho | ⟨e, he, hme⟩
+      · exact hlk c m ho
+      · exact absurd (hme.symm.trans hsub) (hd.2 e he)
+
+/-! ## Pruning -/
+
+theorem step_entries_nonholder {s s' : Sys} {t : Nat} (hh : (s.tasks t).pc.holds = false)
+    (h : step s t = some s') : s'.hub.entries = s.hub.entries := by
+  step_cases h
+  all_goals (simp_all [Pc.holds, Sys.setPc, Sys.finish, Sys.setHub, Sys.setLock])
+
+theorem step_closed_mono {s s' : Sys} {t : Nat} (h : step s t = some s') (c : Nat)
+    (hc : (s.hub.chans c).closed = true) : (s'.hub.chans c).closed = true := by
+  step_cases h
+  all_goals (simp only [Sys.setPc, Sys.finish, Sys.setHub, Sys.setLock, sendTo_chans])
+  all_goals (try (exact hc))
+  all_goals (try (simp only [upd_apply]; split <;> simp_all [closeChan]; done))
+  · split
+    · simp only [upd_apply]; split <;> simp_all
+    · exact hc
+
+/-- The `must` list of a publish in progress (ghost: ids of the entries of its topic whose receiver
+was gone when it took the mutex) names table entries, all of which the loop collects into
+`to_prune` as it passes them; they are settled while the publish waits for the mutex again, and
+dead once the prune has run and forever after the publish has returned. -/
+def PruneInv (s : Sys) : Prop :=
+  (∀ t topic p seq i prune must, (s.tasks t).pc = .pubIter topic p seq i prune must →
+    (∀ k ∈ must, ∃ e ∈ s.hub.entries, e.id = k) ∧
+    (∀ j e, j < i → s.hub.entries[j]? = some e → e.id ∈ must → e.id ∈ prune) ∧
+    (∀ e ∈ s.hub.entries, e.id ∈ must → e.topic = topic ∧ (s.hub.chans e.chan).closed = true)) ∧
+  (∀ t prune must, (s.tasks t).pc = .pubWant prune must ∨ (s.tasks t).pc = .pubPruneLocked prune must →
+    ∀ k ∈ must, k ∈ prune ∧ Settled s k) ∧
+  (∀ t must, (s.tasks t).pc = .pubPruned must → ∀ k ∈ must, Dead s k) ∧
+  (∀ t must, Obs.published must ∈ (s.tasks t).out → ∀ k ∈ must, Dead s k)
+
+theorem pruneInv_init (caps progs) : PruneInv (init caps progs) := by
+  simp [PruneInv, init, emptyHub]
+
+theorem settled_of_mem {s : Sys} (hid : IdInv s) {e : Entry} (he : e ∈ s.hub.entries) :
+    Settled s e.id :=
+  ⟨hid.2.1 e he, fun t hp => (hid.2.2.1 t e.id hp).2 e he rfl⟩
+
+set_option maxHeartbeats 2000000 in
+theorem pruneInv_step {s s' : Sys} {t : Nat} (hl : LockInv s) (hid : IdInv s) (hi : PruneInv s)
+    (h : step s t = some s') : PruneInv s' := by
+  obtain ⟨h3, h4, h5, h6⟩ := hi
+  have hsettled := @settled_of_mem s hid
+  refine ⟨?_, ?_, ?_, ?_⟩
+  · -- loop invariant
+    intro t1 topic p seq i prune must hpc
+    by_cases ht : t1 = t
+    · subst ht
+      have h3t := h3 t1
+      have hnd := hid.1
+      have heq := @entry_eq_of_id s.hub.entries
+      step_cases h
+      all_goals (simp only [Sys.setPc, Sys.finish, Sys.setHub, Sys.setLock, upd_same, sendTo_chans,
+        sendTo_prune] at hpc ⊢)
+      all_goals (try (simp at hpc; done))
+      · -- acquisition
+        simp only [Pc.pubIter.injEq] at hpc
+        obtain ⟨rfl, rfl, rfl, rfl, rfl, rfl⟩ := hpc
+        refine ⟨?_, ?_, ?_⟩
+        · intro k hk
+          obtain ⟨e, he, _, hek⟩ := mem_mustOf.mp hk
+          exact ⟨e, he, hek⟩
+        · intro j e hj; omega
+        · intro e he hk
+          obtain ⟨e', he', hp, hek⟩ := mem_mustOf.mp hk
+          have := heq hnd he' he hek
+          subst this
+          exact hp
+      · -- loop body
+        rename_i x topic0 p0 seq0 i0 prune0 must0 hpc0 x2 e0 he0
+        simp only [Pc.pubIter.injEq] at hpc
+        obtain ⟨rfl, rfl, rfl, rfl, rfl, rfl⟩ := hpc
+        obtain ⟨ha, hb, hc⟩ := h3t _ _ _ _ _ _ hpc0
+        refine ⟨ha, ?_, ?_⟩
+        · intro j e hj hje hm
+          by_cases hji : j < i0
+          · have := hb j e hji hje hm
+            split <;> simp [this]
+          · have hji' : j = i0 := by omega
+            subst hji'
+            rw [he0] at hje
+            have := Option.some.inj hje
+            subst this
+            have := hc e0 (List.mem_of_getElem? he0) hm
+            simp [this]
+        · intro e he hm
+          obtain ⟨h1, h2⟩ := hc e he hm
+          refine ⟨h1, ?_⟩
+          split
+          · simp only [upd_apply]; split <;> simp_all
+          · exact h2
+    · have hpc' := hpc
+      rw [step_other h ht] at hpc'
+      have hh1 : (s.tasks t1).pc.holds = true := by rw [hpc']; rfl
+      have hh : (s.tasks t).pc.holds = false := by
+        cases hb : (s.tasks t).pc.holds
+        · rfl
+        · exact absurd (holder_unique hl hh1 hb) ht
+      have hent := step_entries_nonholder hh h
+      obtain ⟨ha, hb, hc⟩ := h3 t1 _ _ _ _ _ _ hpc'
+      rw [hent]
+      refine ⟨ha, hb, ?_⟩
+      intro e he hm
+      exact ⟨(hc e he hm).1, step_closed_mono h _ (hc e he hm).2⟩
+  · -- between the two sections
+    intro t1 prune must hpc k hk
+    by_cases ht : t1 = t
+    · subst ht
+      have h3t := h3 t1
+      have h4t := h4 t1
+      have hS : ∀ k, Settled s k → Settled s' k := fun k hk => settled_step hk h
+      step_cases h
+      all_goals (simp only [Sys.setPc, Sys.finish, Sys.setHub, Sys.setLock, upd_same] at hpc)
+      all_goals (try (simp at hpc; done))
+      · -- loop exit with a non-empty to_prune
+        rename_i x topic0 p0 seq0 i0 prune0 must0 hpc0 x2 hnone hne
+        simp only [Pc.pubWant.injEq, reduceCtorEq, or_false] at hpc
+        obtain ⟨rfl, rfl⟩ := hpc
+        obtain ⟨ha, hb, hc⟩ := h3t _ _ _ _ _ _ hpc0
+        obtain ⟨e, he, rfl⟩ := ha k hk
+        obtain ⟨j, hj⟩ := List.getElem?_of_mem he
+        have hlen : s.hub.entries.length ≤ i0 := by
+          rcases Nat.lt_or_ge i0 s.hub.entries.length with hlt | hge
+          · rw [List.getElem?_eq_getElem hlt] at hnone; simp at hnone
+          · exact hge
+        have hji : j < i0 := by have := getElem?_lt hj; omega
+        exact ⟨hb j e hji hj hk, hS _ (hsettled he)⟩
+      · -- second acquisition
+        rename_i x prune0 must0 hpc0 hfree
+        simp only [Pc.pubPruneLocked.injEq, reduceCtorEq, false_or] at hpc
+        obtain ⟨rfl, rfl⟩ := hpc
+        obtain ⟨hp, hs⟩ := h4t _ _ (Or.inl hpc0) k hk
+        exact ⟨hp, hS _ hs⟩
+    · rw [step_other h ht] at hpc
+      obtain ⟨hp, hs⟩ := h4 t1 prune must hpc k hk
+      exact ⟨hp, settled_step hs h⟩
+  · -- pruned
+    intro t1 must hpc k hk
+    by_cases ht : t1 = t
+    · subst ht
+      have h4t := h4 t1
+      have hS : ∀ k, Settled s k → Settled s' k := fun k hk => settled_step hk h
+      step_cases h
+      all_goals (simp only [Sys.setPc, Sys.finish, Sys.setHub, Sys.setLock, upd_same] at hpc)
+      all_goals (try (simp at hpc; done))
+      rename_i x prune0 must0 hpc0
+      simp only [Pc.pubPruned.injEq] at hpc
+      subst hpc
+      obtain ⟨hp, hs⟩ := h4t _ _ (Or.inr hpc0) k hk
+      refine ⟨hS _ hs, ?_⟩
+      intro e he
+      simp only [Sys.setPc, Sys.setHub] at he
+      have := (mem_pruneEntries.mp he).2
+      intro hek; subst hek; exact this hp
+    · rw [step_other h ht] at hpc
+      exact dead_step (h5 t1 must hpc k hk) h
+  · -- returned
+    intro t1 must hout k hk
+    by_cases ht : t1 = t
+    · subst ht
+      have h3t := h3 t1
+      have h5t := h5 t1
+      have h6t := h6 t1
+      have hD : ∀ k, Dead s k → Dead s' k := fun k hk => dead_step hk h
+      step_cases h
+      all_goals (simp only [Sys.setPc, Sys.finish, Sys.setHub, Sys.setLock, upd_same, List.mem_append,
+        List.mem_singleton, Obs.published.injEq, reduceCtorEq, or_false] at hout)
+      all_goals (try (exact hD _ (h6t must hout k hk)))
+      · -- loop exit with an empty to_prune: `must` is empty
+        rename_i x topic0 p0 seq0 i0 prune0 must0 hpc0 x2 hnone hempty
+        rcases hout with hout | rfl
+        · exact hD _ (h6t must hout k hk)
+        · exfalso
+          obtain ⟨ha, hb, hc⟩ := h3t _ _ _ _ _ _ hpc0
+          obtain ⟨e, he, rfl⟩ := ha k hk
+          obtain ⟨j, hj⟩ := List.getElem?_of_mem he
+          have hlen : s.hub.entries.length ≤ i0 := by
+            rcases Nat.lt_or_ge i0 s.hub.entries.length with hlt | hge
+            · rw [List.getElem?_eq_getElem hlt] at hnone; simp at hnone
+            · exact hge
+          have hji : j < i0 := by have := getElem?_lt hj; omega
+          have := hb j e hji hj hk
+          simp [List.isEmpty_iff.mp hempty] at this
+      · -- return after the prune
+        rename_i x must0 hpc0
+        rcases hout with hout | rfl
+        · exact hD _ (h6t must hout k hk)
+        · exact hD _ (h5t _ hpc0 k hk)
+    · rw [step_other h ht] at hout
+      exact dead_step (h6 t1 must hout k hk) h
+
+/-! ## Refinement: the atomic-op layer is the small-step semantics under run-to-completion schedules -/
+
+/-- `s'` is `s` after task `t` has run its head call `op` as ONE atomic operation of layer 1. -/
+def Completes (s s' : Sys) (t : Nat) (op : Op) : Prop :=
+  s'.hub = (apply s.hub op).1 ∧ s'.lock = none ∧
+  (s'.tasks t).pc = .idle ∧ (s'.tasks t).prog = (s.tasks t).prog.tail ∧
+  (s'.tasks t).out = (s.tasks t).out ++ [(apply s.hub op).2] ∧
+  ∀ t', t' ≠ t → s'.tasks t' = s.tasks t'
+
+theorem exec_step {s s1 : Sys} {t : Nat} (h : step s t = some s1) (l : List Nat) :
+    exec s (t :: l) = exec s1 l := by
+  rw [exec_cons]; simp [stepOrStay, h]
+
+theorem pubIter_run (t : Nat) (topic : Topic) (p seq : Nat) (must : List Nat) :
+    ∀ (n : Nat) (s : Sys) (i : Nat) (prune : List Nat),
+    (s.tasks t).pc = .pubIter topic p seq i prune must → i + n = s.hub.entries.length →
+    (exec s (List.replicate n t)).hub =
+        { s.hub with chans := (fanout topic p seq (s.hub.entries.drop i) s.hub.chans prune).1 } ∧
+    (exec s (List.replicate n t)).lock = s.lock ∧
+    ((exec s (List.replicate n t)).tasks t).pc = .pubIter topic p seq s.hub.entries.length
+        (fanout topic p seq (s.hub.entries.drop i) s.hub.chans prune).2 must ∧
+    ((exec s (List.replicate n t)).tasks t).prog = (s.tasks t).prog ∧
+    ((exec s (List.replicate n t)).tasks t).out = (s.tasks t).out ∧
+    ∀ t', t' ≠ t → (exec s (List.replicate n t)).tasks t' = s.tasks t' := by
+  intro n
+  induction n with
+  | zero =>
+    intro s i prune hpc hi
+    have : s.hub.entries.drop i = [] := by apply List.drop_eq_nil_of_le; omega
+    have hi' : i = s.hub.entries.length := by omega
+    subst hi'
+    simp [exec, this, fanout, hpc]
+  | succ n ih =>
+    intro s i prune hpc hi
+    have hlt : i < s.hub.entries.length := by omega
+    have he : s.hub.entries[i]? = some s.hub.entries[i] := List.getElem?_eq_getElem hlt
+    obtain ⟨s1, hs1⟩ : ∃ s1, s1 = ((s.setPc t (.pubIter topic p seq (i + 1)
+        (sendTo s.hub.chans prune topic p seq s.hub.entries[i]).2 must)).setHub
+        { s.hub with chans := (sendTo s.hub.chans prune topic p seq s.hub.entries[i]).1 }) := ⟨_, rfl⟩
+    have hst : step s t = some s1 := by
+      unfold step; rw [hpc, hs1]; simp only [he]
+    rw [List.replicate_succ, exec_step hst]
+    have hd : s.hub.entries.drop i = s.hub.entries[i] :: s.hub.entries.drop (i + 1) :=
+      List.drop_eq_getElem_cons hlt
+    rw [hd]
+    simp only [fanout]
+    have hpc1 : (s1.tasks t).pc = .pubIter topic p seq (i + 1)
+        (sendTo s.hub.chans prune topic p seq s.hub.entries[i]).2 must := by
+      rw [hs1]; simp [Sys.setPc, Sys.setHub]
+    have hen1 : s1.hub.entries = s.hub.entries := by rw [hs1]; simp [Sys.setPc, Sys.setHub]
+    have hch1 : s1.hub.chans = (sendTo s.hub.chans prune topic p seq s.hub.entries[i]).1 := by
+      rw [hs1]; simp [Sys.setPc, Sys.setHub]
+    have hh1 : s1.hub.nextId = s.hub.nextId ∧ s1.hub.pubs = s.hub.pubs ∧ s1.lock = s.lock ∧
+        (s1.tasks t).prog = (s.tasks t).prog ∧ (s1.tasks t).out = (s.tasks t).out ∧
+        ∀ t', t' ≠ t → s1.tasks t' = s.tasks t' := by
+      rw [hs1]; simp [Sys.setPc, Sys.setHub]
+      intro t' ht'; exact upd_other _ _ _ _ ht'
+    obtain ⟨h1, h2, h3, h4, h5, h6⟩ := ih s1 (i + 1) _ hpc1 (by rw [hen1]; omega)
+    rw [hen1, hch1] at h1 h3
+    obtain ⟨g1, g2, g3, g4, g5, g6⟩ := hh1
+    refine ⟨?_, h2.trans g3, h3, h4.trans g4, h5.trans g5, fun t' ht' => (h6 t' ht').trans (g6 t' ht')⟩
+    rw [h1]
+    simp only [g1, g2, hen1]
+
+
+theorem atomic_refines_simple {s : Sys} {t : Nat} {op : Op} {rest : List Op}
+    (hlock : s.lock = none) (hpc : (s.tasks t).pc = .idle) (hprog : (s.tasks t).prog = op :: rest)
+    (hop : ∀ topic p, op ≠ .pub topic p) :
+    ∃ n, Completes s (exec s (List.replicate n t)) t op := by
+  cases op with
+  | pub topic p => exact absurd rfl (hop topic p)
+  | sub topic chan =>
+    refine ⟨4, ?_⟩
+    simp [Completes, exec, List.replicate, stepOrStay, step, hpc, hprog, hlock, Sys.setPc, Sys.finish,
+      Sys.setHub, Sys.setLock, apply, subscribe, upd_same]
+    intro t' ht'; simp [upd_apply, ht']
+  | unsub id =>
+    refine ⟨3, ?_⟩
+    simp [Completes, exec, List.replicate, stepOrStay, step, hpc, hprog, hlock, Sys.setPc, Sys.finish,
+      Sys.setHub, Sys.setLock, apply, unsubscribe, upd_same]
+    intro t' ht'; simp [upd_apply, ht']
+  | len =>
+    refine ⟨2, ?_⟩
+    simp [Completes, exec, List.replicate, stepOrStay, step, hpc, hprog, hlock, Sys.setPc, Sys.finish,
+      Sys.setLock, apply, upd_same]
+    intro t' ht'; simp [upd_apply, ht']
+  | recv c =>
+    refine ⟨1, ?_⟩
+    simp only [Completes, exec, List.replicate, List.foldl, stepOrStay, step, hpc, hprog, apply]
+    split <;> simp [Sys.finish, Sys.setHub, hlock, hprog] <;> (intro t' ht'; simp [upd_apply, ht'])
+  | close c =>
+    refine ⟨1, ?_⟩
+    simp only [Completes, exec, List.replicate, List.foldl, stepOrStay, step, hpc, hprog, apply]
+    split <;> simp [Sys.finish, Sys.setHub, hlock, hprog] <;> (intro t' ht'; simp [upd_apply, ht'])
+
+
+theorem pub_exit {s : Sys} {t : Nat} {topic : Topic} {p seq : Nat} {prune must : List Nat}
+    (hpc : (s.tasks t).pc = .pubIter topic p seq s.hub.entries.length prune must) :
+    ∃ k, (exec s (List.replicate k t)).hub =
+        { s.hub with entries := if prune.isEmpty then s.hub.entries else pruneEntries s.hub.entries prune } ∧
+      (exec s (List.replicate k t)).lock = none ∧
+      ((exec s (List.replicate k t)).tasks t).pc = .idle ∧
+      ((exec s (List.replicate k t)).tasks t).prog = (s.tasks t).prog.tail ∧
+      ((exec s (List.replicate k t)).tasks t).out = (s.tasks t).out ++ [.published must] ∧
+      ∀ t', t' ≠ t → (exec s (List.replicate k t)).tasks t' = s.tasks t' := by
+  by_cases hp : prune.isEmpty = true
+  · refine ⟨1, ?_⟩
+    simp [exec, List.replicate, stepOrStay, step, hpc, hp, Sys.finish, Sys.setLock]
+    intro t' ht'; simp [upd_apply, ht']
+  · refine ⟨4, ?_⟩
+    simp [exec, List.replicate, stepOrStay, step, hpc, hp, Sys.finish, Sys.setLock, Sys.setPc, Sys.setHub]
+    intro t' ht'; simp [upd_apply, ht']
+
+theorem atomic_refines {s : Sys} {t : Nat} {op : Op} {rest : List Op}
+    (hlock : s.lock = none) (hpc : (s.tasks t).pc = .idle) (hprog : (s.tasks t).prog = op :: rest) :
+    ∃ n, Completes s (exec s (List.replicate n t)) t op := by
+  by_cases hop : ∀ topic p, op ≠ .pub topic p
+  · exact atomic_refines_simple hlock hpc hprog hop
+  · have : ∃ topic p, op = .pub topic p := by
+      apply Classical.byContradiction
+      intro hne
+      exact hop (fun topic p h => hne ⟨topic, p, h⟩)
+    obtain ⟨topic, p, rfl⟩ := this
+    -- 1: take the mutex
+    obtain ⟨s1, hs1⟩ : ∃ s1, s1 = ({ s.setPc t (.pubIter topic p s.hub.pubs 0 [] (mustOf s.hub topic)) with
+        lock := some t
+        hub := { s.hub with pubs := s.hub.pubs + 1 }
+        log := s.log ++ [(topic, p)] } : Sys) := ⟨_, rfl⟩
+    have hst1 : step s t = some s1 := by
+      unfold step; rw [hpc, hprog, hs1]; simp [hlock]
+    have f1 : (s1.tasks t).pc = .pubIter topic p s.hub.pubs 0 [] (mustOf s.hub topic) ∧
+        s1.hub.entries = s.hub.entries ∧ s1.hub.chans = s.hub.chans ∧ s1.hub.nextId = s.hub.nextId ∧
+        s1.hub.pubs = s.hub.pubs + 1 ∧ (s1.tasks t).prog = (s.tasks t).prog ∧
+        (s1.tasks t).out = (s.tasks t).out ∧ ∀ t', t' ≠ t → s1.tasks t' = s.tasks t' := by
+      rw [hs1]; simp [Sys.setPc]
+      intro t' ht'; exact upd_other _ _ _ _ ht'
+    obtain ⟨a1, a2, a3, a4, a5, a6, a7, a8⟩ := f1
+    -- 2: the loop
+    obtain ⟨b1, b2, b3, b4, b5, b6⟩ := pubIter_run t topic p s.hub.pubs (mustOf s.hub topic)
+      s1.hub.entries.length s1 0 [] a1 (by omega)
+    -- 3: release (and prune)
+    obtain ⟨k, c1, c2, c3, c4, c5, c6⟩ := @pub_exit (exec s1 (List.replicate s1.hub.entries.length t)) t
+      topic p s.hub.pubs _ (mustOf s.hub topic) (by rw [b3, b1])
+    refine ⟨1 + (s1.hub.entries.length + k), ?_⟩
+    have hex : exec s (List.replicate (1 + (s1.hub.entries.length + k)) t) =
+        exec (exec s1 (List.replicate s1.hub.entries.length t)) (List.replicate k t) := by
+      rw [← List.replicate_append_replicate, ← List.replicate_append_replicate, exec_append, exec_append]
+      congr 1
+      congr 1
+      simp [exec, stepOrStay, hst1]
+    rw [hex]
+    refine ⟨?_, c2, c3, ?_, ?_, ?_⟩
+    · rw [c1, b1]
+      simp only [apply, publish, a2, a3, a4, a5, List.drop_zero]
+    · rw [c4, b4, a6]
+    · rw [c5, b5, a7]; simp [apply]
+    · intro t' ht'; rw [c6 t' ht', b6 t' ht', a8 t' ht']
+
+
+/-- Layer 1 over a list of calls `(task, op)`: final hub and the observation of every call. -/
+def runCalls : Hub → List (Nat × Op) → Hub × List (Nat × Obs)
+  | h, [] => (h, [])
+  | h, c :: cs => ((runCalls (apply h c.2).1 cs).1, (c.1, (apply h c.2).2) :: (runCalls (apply h c.2).1 cs).2)
+
+/-- The program of task `t` in a list of calls. -/
+def progOf (calls : List (Nat × Op)) (t : Nat) : List Op := (calls.filter (fun c => c.1 = t)).map (·.2)
+
+theorem atomic_refines_list : ∀ (calls : List (Nat × Op)) (s : Sys), s.lock = none →
+    (∀ t, (s.tasks t).pc = .idle) → (∀ t, (s.tasks t).prog = progOf calls t) →
+    ∃ sched, (exec s sched).hub = (runCalls s.hub calls).1 ∧ (exec s sched).lock = none ∧
+      ∀ t, ((exec s sched).tasks t).pc = .idle ∧ ((exec s sched).tasks t).prog = [] ∧
+        ((exec s sched).tasks t).out =
+          (s.tasks t).out ++ (((runCalls s.hub calls).2.filter (fun o => o.1 = t)).map (·.2)) := by
+  intro calls
+  induction calls with
+  | nil =>
+    intro s hl hpc hprog
+    refine ⟨[], rfl, hl, fun t => ⟨hpc t, ?_, ?_⟩⟩
+    · show (s.tasks t).prog = []
+      simpa [progOf] using hprog t
+    · simp [runCalls, exec]
+  | cons c cs ih =>
+    intro s hl hpc hprog
+    obtain ⟨t, op⟩ := c
+    have hp : (s.tasks t).prog = op :: progOf cs t := by
+      rw [hprog t]; simp [progOf]
+    obtain ⟨n, h1, h2, h3, h4, h5, h6⟩ := atomic_refines hl (hpc t) hp
+    obtain ⟨sched, g1, g2, g3⟩ := ih (exec s (List.replicate n t)) h2
+      (by
+        intro t'
+        by_cases ht : t' = t
+        · subst ht; exact h3
+        · rw [h6 t' ht]; exact hpc t')
+      (by
+        intro t'
+        by_cases ht : t' = t
+        · subst ht; rw [h4, hp]; rfl
+        · rw [h6 t' ht, hprog t']
+          have : ¬ t = t' := fun e => ht e.symm
+          simp [progOf, this])
+    refine ⟨List.replicate n t ++ sched, ?_, ?_, ?_⟩
+    · rw [exec_append, g1, h1]; rfl
+    · rw [exec_append]; exact g2
+    · intro t'
+      rw [exec_append]
+      obtain ⟨k1, k2, k3⟩ := g3 t'
+      refine ⟨k1, k2, ?_⟩
+      rw [k3, h1]
+      by_cases ht : t' = t
+      · subst ht
+        rw [h5]
+        simp [runCalls]
+      · rw [h6 t' ht]
+        have : ¬ t = t' := fun e => ht e.symm
+        simp [runCalls, this]
+
+/-- From a fresh system: any list of calls run atomically (layer 1, what the driver executes and the
+correspondence compares with the real code) is what the small-step semantics computes under the
+schedule that runs each call to completion in that order. -/
+theorem atomic_is_small_step (caps : Nat → Nat) (calls : List (Nat × Op)) :
+    ∃ sched, (exec (init caps (progOf calls)) sched).hub = (runCalls (emptyHub caps) calls).1 ∧
+      ∀ t, ((exec (init caps (progOf calls)) sched).tasks t).out =
+        ((runCalls (emptyHub caps) calls).2.filter (fun o => o.1 = t)).map (·.2) := by
+  obtain ⟨sched, h1, _, h3⟩ := atomic_refines_list calls (init caps (progOf calls)) rfl
+    (fun _ => rfl) (fun _ => rfl)
+  exact ⟨sched, h1, fun t => by simpa [init] using (h3 t).2.2⟩
 
 end Srtla.Hub
